@@ -81,7 +81,12 @@ impl Display for ErrorEntry<'_> {
 
 impl LocatedError for ErrorEntry<'_> {
     fn span(&self) -> Span {
-        (self.location, 1)
+        // The span covers the character at the location of the error (if any), which may be
+        // encoded using more than one byte.
+        (
+            self.location,
+            self.fragment.chars().next().map_or(0, char::len_utf8),
+        )
     }
 }
 
